@@ -1,4 +1,5 @@
 """C12 — quitonerror decides how a rejected frame is reported, not which frames arrive."""
+import impl
 import readerlib as rl
 import readerprops as rp
 
@@ -19,11 +20,14 @@ def inp_base(s, pf, parsing):
 def run(ctx):
     rng = ctx.rng
     streams = []
+    clean = {}
     for _ in range(60 if ctx.quick() else 600):
         parts = rl.clean_stream(rng, k=rng.randrange(1, 7))
         streams.append(b"".join(f for _, f in parts))
+        clean[streams[-1]] = parts
     for _ in range(60 if ctx.quick() else 600):
         streams.append(rl.garbage_stream(rng))
+    streams = list(dict.fromkeys(streams))        # one configuration per distinct stream
     cases = []
     for s in streams:
         pf = 7 if rng.random() < 0.6 else rng.randrange(8)
@@ -43,6 +47,23 @@ def run(ctx):
             lg = by[(s, pf, parsing, 1, True)]
             rs = by[(s, pf, parsing, 2, True)]
             lgn = by[(s, pf, parsing, 1, False)]
+            if s in clean and parsing:
+                # a clean stream: the rejected frames are exactly those its protocol parser refuses when called
+                # directly under the reader's options - one handler call each, with that exception, in order
+                o = [c for c in cases if c["stream"] == s][0]
+                want = []
+                for kind, raw in clean[s]:
+                    pr = rp.kind_proto(kind)
+                    if pr == 0 or not (pf & pr):
+                        continue
+                    try:
+                        rp.direct_parse(pr, raw, o["validate"], o["msgmode"], o["bf"])
+                    except rp.PROT_ERRS as e:
+                        want.append(impl.exn_name(e))
+                if lg["reports"] != want:
+                    ctx.fail("handler-calls-differ-from-rejected-frames", dict(inp_base(s, pf, parsing), validate=o["validate"],
+                                                                               msgmode=o["msgmode"], parsebitfield=o["bf"]),
+                             str(want)[:300], str(lg["reports"])[:300])
             for hk in ("obj", "method"):
                 # the kind of callable must not matter (a falsy callable object is still a handler)
                 if by[(s, pf, parsing, 1, hk)]["reports"] != lg["reports"]:
